@@ -10,10 +10,10 @@ LEVEL = "model_checking"
 M1 = bytes([0xA1, 0xB2, 0xC3, 0xD4])
 M2 = bytes([0xA5, 0xB6, 0xC7, 0xD8])
 KINDS = ["lit-small", "lit-large", "back-small", "back-large", "fwd-small", "fwd-large", "equ-small", "equ-large", "define-large", "set-small",
-         "set-redef", "odd+lit-small"]
+         "set-redef", "odd+lit-small", "fwd-ffff", "fwd-fffff"]
 REF = {"lit-small": "5", "lit-large": "0x1234", "back-small": "bsmall", "back-large": "blarge", "fwd-small": "fsmall", "fwd-large": "flarge",
        "equ-small": "EQS", "equ-large": "EQL", "define-large": "DFL", "set-small": "STS",
-       "set-redef": "STR", "odd+lit-small": "5"}
+       "set-redef": "STR", "odd+lit-small": "5", "fwd-ffff": "ftop16", "fwd-fffff": "ftop20"}
 
 
 def program(cpu, line, slot, kind, line2=None, slot2=None, kind2=None, scoped=False, bpa=1):
@@ -36,6 +36,11 @@ def program(cpu, line, slot, kind, line2=None, slot2=None, kind2=None, scoped=Fa
         src += [line2[:s2] + REF[kind2] + line2[e2:]]
     src += ["L3:", ".db 0xa5, 0xb6, 0xc7, 0xd8" + pad, "L4:", ".set STR=0x1234",
             ".org 0x20", "fsmall:", ".db 0x21, 0x21, 0x21, 0x21", ".org 0x2000", "flarge:", ".db 0x22, 0x22, 0x22, 0x22"]
+    # a forward label whose value is all ones in 16 / 20 bits (the value -1 that some CPUs encode in a shorter form)
+    if kind == "fwd-ffff":
+        src += [".org 0xffff", "ftop16:"]
+    if kind == "fwd-fffff":
+        src += [".org 0xfffff", "ftop20:"]
     return "\n".join(src) + "\n"
 
 
@@ -72,7 +77,7 @@ def job(j):
             sl = [s for s in C06.slots(line) if s[0] == "num"]
             for si, slot in enumerate(sl):
                 for kind in KINDS:
-                    for opt in ((0,) if quick and kind not in ("fwd-small", "fwd-large") else (0, 2)):
+                    for opt in ((0,) if quick and kind not in ("fwd-small", "fwd-large", "fwd-ffff", "fwd-fffff") else (0, 2)):
                         cases.append((opt, program(cpu, line, slot, kind, bpa=bpa)))
                         meta.append((line, si, kind, opt, None))
                 if not quick:
